@@ -233,6 +233,80 @@ Proof.
 Qed.
 
 (* ================================================================================================ *)
+(* 4b. fixed-size items (for the padding quirk IPad)                                                *)
+(* ================================================================================================ *)
+
+Lemma enc_prim_size (p : prim) (v : pval) (bs : list N) (k : nat) :
+  prim_size p = Some k -> enc_prim p v = Some bs -> List.length bs = k.
+Proof.
+  intros Hk Henc. destruct p as [n|n|n]; cbn [prim_size] in Hk; try discriminate Hk;
+    injection Hk as Hk; subst k; destruct v as [z|l]; cbn [enc_prim] in Henc;
+    try discriminate Henc; cbv zeta in Henc.
+  - destruct (_ && _); [|discriminate Henc]. injection Henc as Hbs. subst bs.
+    apply le_bytes_length.
+  - destruct (_ && _); [|discriminate Henc]. injection Henc as Hbs. subst bs.
+    apply le_bytes_length.
+Qed.
+
+Lemma enc_row_size (ps : list prim) : forall (vs : list pval) (bs : list N) (k : nat),
+  row_size ps = Some k -> enc_row ps vs = Some bs -> List.length bs = k.
+Proof.
+  induction ps as [|p ps IH]; intros vs bs k Hk Henc; destruct vs as [|v vs];
+    cbn [enc_row] in Henc; try discriminate Henc; cbn [row_size] in Hk.
+  - injection Henc as Hbs. injection Hk as Hk. subst bs k. reflexivity.
+  - destruct (prim_size p) as [ka|] eqn:Hka; [|discriminate Hk].
+    destruct (row_size ps) as [kb|] eqn:Hkb; [|discriminate Hk].
+    injection Hk as Hk. subst k.
+    destruct (enc_prim p v) as [a|] eqn:Ha; [|discriminate Henc].
+    destruct (enc_row ps vs) as [b|] eqn:Hb; [|discriminate Henc].
+    injection Henc as Hbs. subst bs.
+    rewrite app_length, (enc_prim_size p v a ka Hka Ha), (IH vs b kb eq_refl Hb). reflexivity.
+Qed.
+
+Lemma enc_rows_size (ps : list prim) (k : nat) : forall (rows : list (list pval)) (bs : list N),
+  row_size ps = Some k -> enc_rows ps rows = Some bs ->
+  List.length bs = (List.length rows * k)%nat.
+Proof.
+  induction rows as [|r rows IH]; intros bs Hk Henc; cbn [enc_rows] in Henc.
+  - injection Henc as Hbs. subst bs. reflexivity.
+  - destruct (enc_row ps r) as [a|] eqn:Ha; [|discriminate Henc].
+    destruct (enc_rows ps rows) as [b|] eqn:Hb; [|discriminate Henc].
+    injection Henc as Hbs. subst bs.
+    rewrite app_length, (enc_row_size ps r a k Hk Ha), (IH b Hk eq_refl).
+    cbn [List.length Nat.mul]. reflexivity.
+Qed.
+
+(* an item of fixed size k is encoded on exactly k bytes *)
+Lemma enc_item_fixed_size (t : bool) (it : item) (v : ival) (bs : list N) (k : nat) :
+  fixed_size it = Some k -> enc_item t it v = Some bs -> List.length bs = k.
+Proof.
+  intros Hk Henc. destruct it as [p|pfx ps|m ps|ps|ps|ps|w a n]; cbn [fixed_size] in Hk;
+    try discriminate Hk.
+  - destruct v as [x|rows|]; cbn [enc_item] in Henc; try discriminate Henc.
+    exact (enc_prim_size p x bs k Hk Henc).
+  - destruct (row_size ps) as [kr|] eqn:Hkr; [|discriminate Hk]. injection Hk as Hk. subst k.
+    destruct v as [x|rows|]; cbn [enc_item] in Henc; try discriminate Henc.
+    destruct (List.length rows =? m)%nat eqn:Hlen; [|discriminate Henc].
+    apply Nat.eqb_eq in Hlen. subst m.
+    exact (enc_rows_size ps kr rows bs Hkr Henc).
+Qed.
+
+(* at least fixed_prefix s bytes are produced for a schema s *)
+Lemma enc_items_fixed_prefix (t : bool) : forall (s : schema) (vs : list ival) (bs : list N),
+  enc_items t s vs = Some bs -> (fixed_prefix s <= List.length bs)%nat.
+Proof.
+  induction s as [|it s IH]; intros vs bs Henc; cbn [fixed_prefix].
+  - lia.
+  - destruct vs as [|v vs]; cbn [enc_items] in Henc; [discriminate Henc|].
+    destruct (enc_item t it v) as [a|] eqn:Ha; [|discriminate Henc].
+    destruct (enc_items t s vs) as [b|] eqn:Hb; [|discriminate Henc].
+    injection Henc as Hbs. subst bs.
+    destruct (fixed_size it) as [k|] eqn:Hk; [|lia].
+    rewrite app_length, (enc_item_fixed_size t it v a k Hk Ha).
+    pose proof (IH vs b Hb). lia.
+Qed.
+
+(* ================================================================================================ *)
 (* 5. items                                                                                         *)
 (* ================================================================================================ *)
 
@@ -256,7 +330,7 @@ Definition last_ok (it : item) : bool :=
 Lemma dec_enc_item_mid (t t' : bool) (it : item) (v : ival) (bs rest : list N) :
   mid_ok it = true -> enc_item t it v = Some bs -> dec_item t' it (bs ++ rest) = Some (v, rest).
 Proof.
-  intros Hwf Henc. destruct it as [p|pfx ps|n ps|ps|ps|ps]; cbn [mid_ok] in Hwf;
+  intros Hwf Henc. destruct it as [p|pfx ps|n ps|ps|ps|ps|pw pa pn]; cbn [mid_ok] in Hwf;
     try discriminate Hwf.
   - (* IP *)
     destruct v as [x|rows|]; cbn [enc_item] in Henc; try discriminate Henc.
@@ -283,7 +357,7 @@ Qed.
 Lemma dec_enc_item_last (t : bool) (it : item) (v : ival) (bs : list N) :
   last_ok it = true -> enc_item t it v = Some bs -> dec_item t it bs = Some (v, []).
 Proof.
-  intros Hwf Henc. destruct it as [p|pfx ps|n ps|ps|ps|ps]; cbn [last_ok] in Hwf;
+  intros Hwf Henc. destruct it as [p|pfx ps|n ps|ps|ps|ps|pw pa pn]; cbn [last_ok] in Hwf;
     try discriminate Hwf.
   - (* IRest *)
     destruct v as [x|rows|]; cbn [enc_item] in Henc; try discriminate Henc.
@@ -312,21 +386,68 @@ Qed.
 Lemma dec_item_tag_irrelevant (t t' : bool) (it : item) (d : list N) :
   (forall ps, it <> IReq0 ps) -> dec_item t it d = dec_item t' it d.
 Proof.
-  intros Hne. destruct it as [p|pfx ps|n ps|ps|ps|ps]; try reflexivity.
+  intros Hne. destruct it as [p|pfx ps|n ps|ps|ps|ps|pw pa pn]; try reflexivity.
   exfalso. exact (Hne ps eq_refl).
 Qed.
 
+(* the padding quirk: it carries no value and produces no bytes; in a well-formed schema it is
+   followed by more than w bytes, so that decoding it leaves the encoder's output untouched *)
+Definition pad_ok (it : item) (s : schema) : Prop :=
+  exists w a n, it = IPad w a n /\ (w < fixed_prefix s)%nat.
+
 Lemma wf_items_cons (it : item) (s : schema) :
   wf_items (it :: s) = true ->
-  (mid_ok it = true /\ wf_items s = true) \/ (last_ok it = true /\ s = []).
+  (mid_ok it = true /\ wf_items s = true) \/ (last_ok it = true /\ s = [])
+  \/ (pad_ok it s /\ wf_items s = true).
 Proof.
-  intros H. destruct it as [p|pfx ps|n ps|ps|ps|ps]; cbn [wf_items mid_ok last_ok] in H |- *.
+  intros H. destruct it as [p|pfx ps|n ps|ps|ps|ps|pw pa pn]; cbn [wf_items mid_ok last_ok] in H |- *.
   - apply andb_true_iff in H. left. exact H.
   - apply andb_true_iff in H. left. exact H.
   - apply andb_true_iff in H. left. exact H.
-  - destruct s as [|it' s]; [right; split; [exact H|reflexivity]|discriminate H].
-  - destruct s as [|it' s]; [right; split; [exact H|reflexivity]|discriminate H].
-  - destruct s as [|it' s]; [right; split; [exact H|reflexivity]|discriminate H].
+  - destruct s as [|it' s]; [right; left; split; [exact H|reflexivity]|discriminate H].
+  - destruct s as [|it' s]; [right; left; split; [exact H|reflexivity]|discriminate H].
+  - destruct s as [|it' s]; [right; left; split; [exact H|reflexivity]|discriminate H].
+  - apply andb_true_iff in H. destruct H as [Hw Hs]. apply Nat.ltb_lt in Hw.
+    right. right. split; [|exact Hs]. exists pw, pa, pn. split; [reflexivity|exact Hw].
+Qed.
+
+Lemma enc_item_pad (t : bool) (w a n : nat) (v : ival) (bs : list N) :
+  enc_item t (IPad w a n) v = Some bs -> v = XNone /\ bs = [].
+Proof.
+  intros Henc. destruct v as [x|rows|]; cbn [enc_item] in Henc; try discriminate Henc.
+  injection Henc as Hbs. subst bs. split; reflexivity.
+Qed.
+
+(* the key fact about IPad: on the encoder's output (followed by anything) the quirk does not fire *)
+Lemma dec_item_pad (t t' : bool) (w a n : nat) (s : schema) (vs : list ival) (bs rest : list N) :
+  (w < fixed_prefix s)%nat -> enc_items t s vs = Some bs ->
+  dec_item t' (IPad w a n) (bs ++ rest) = Some (XNone, bs ++ rest).
+Proof.
+  intros Hw Henc. pose proof (enc_items_fixed_prefix t s vs bs Henc) as Hlen.
+  cbn [dec_item].
+  replace (List.length (bs ++ rest) =? w)%nat with false
+    by (symmetry; apply Nat.eqb_neq; rewrite app_length; lia).
+  reflexivity.
+Qed.
+
+Lemma pad_length (w a n : nat) (s : schema) (t : bool) (vs : list ival) (bs rest : list N) :
+  wf_items (IPad w a n :: s) = true -> enc_items t s vs = Some bs ->
+  (w < List.length (bs ++ rest))%nat.
+Proof.
+  intros Hwf Henc. cbn [wf_items] in Hwf. apply andb_true_iff in Hwf. destruct Hwf as [Hw _].
+  apply Nat.ltb_lt in Hw. pose proof (enc_items_fixed_prefix t s vs bs Henc) as Hlen.
+  rewrite app_length. lia.
+Qed.
+
+Lemma dec_enc_item_pad (t t' : bool) (it : item) (s : schema) (v : ival) (vs : list ival)
+      (a b : list N) :
+  pad_ok it s -> enc_item t it v = Some a -> enc_items t s vs = Some b ->
+  dec_item t' it (a ++ b) = Some (v, b).
+Proof.
+  intros [w [pa [n [Hit Hw]]]] Ha Hb. subst it.
+  destruct (enc_item_pad t w pa n v a Ha) as [Hv Hbs]. subst v a.
+  pose proof (dec_item_pad t t' w pa n s vs b [] Hw Hb) as Hdec.
+  rewrite app_nil_r in Hdec. exact Hdec.
 Qed.
 
 (* ================================================================================================ *)
@@ -343,12 +464,14 @@ Proof.
   - destruct (enc_item t it v) as [a|] eqn:Ha; [|discriminate Henc].
     destruct (enc_items t s vs) as [b|] eqn:Hb; [|discriminate Henc].
     injection Henc as Hbs. subst bs.
-    destruct (wf_items_cons it s Hwf) as [[Hmid Hs]|[Hlast Hs]].
+    destruct (wf_items_cons it s Hwf) as [[Hmid Hs]|[[Hlast Hs]|[Hpad Hs]]].
     + cbn [dec_items]. rewrite (dec_enc_item_mid t t it v a b Hmid Ha).
       rewrite (IH vs b Hs Hb). reflexivity.
     + subst s. destruct vs as [|v' vs]; cbn [enc_items] in Hb; [|discriminate Hb].
       injection Hb as Hb. subst b. rewrite app_nil_r.
       cbn [dec_items]. rewrite (dec_enc_item_last t it v a Hlast Ha). reflexivity.
+    + cbn [dec_items]. rewrite (dec_enc_item_pad t t it s v vs a b Hpad Ha Hb).
+      rewrite (IH vs b Hs Hb). reflexivity.
 Qed.
 
 Lemma is_tag0_head (v : ival) (vs : list ival) : is_tag0 [v] = is_tag0 (v :: vs).
@@ -366,7 +489,7 @@ Proof.
     destruct (enc_item (is_tag0 (v :: vs)) it v) as [a|] eqn:Ha; [|discriminate Henc].
     destruct (enc_items (is_tag0 (v :: vs)) s vs) as [b|] eqn:Hb; [|discriminate Henc].
     injection Henc as Hbs. subst bs.
-    destruct (wf_items_cons it s Hitems) as [[Hmid Hs]|[Hlast Hs]].
+    destruct (wf_items_cons it s Hitems) as [[Hmid Hs]|[[Hlast Hs]|[Hpad Hs]]].
     + cbn [dec_items].
       rewrite (dec_enc_item_mid (is_tag0 (v :: vs)) false it v a b Hmid Ha).
       rewrite (is_tag0_head v vs).
@@ -374,13 +497,37 @@ Proof.
     + subst s. destruct vs as [|v' vs]; cbn [enc_items] in Hb; [|discriminate Hb].
       injection Hb as Hb. subst b. rewrite app_nil_r.
       cbn [dec_items].
-      destruct it as [p|pfx ps|n ps|ps|ps|ps]; cbn [last_ok] in Hlast; try discriminate Hlast.
+      destruct it as [p|pfx ps|n ps|ps|ps|ps|pw pa pn]; cbn [last_ok] in Hlast; try discriminate Hlast.
       * rewrite (dec_item_tag_irrelevant false (is_tag0 [v]) (IRest ps) a) by (intros ps' E; discriminate E).
         rewrite (dec_enc_item_last (is_tag0 [v]) (IRest ps) v a Hlast Ha). reflexivity.
       * rewrite (dec_item_tag_irrelevant false (is_tag0 [v]) (IOpt ps) a) by (intros ps' E; discriminate E).
         rewrite (dec_enc_item_last (is_tag0 [v]) (IOpt ps) v a Hlast Ha). reflexivity.
       * (* a lone IReq0 is not a well-formed schema *)
         cbn in Hreq. discriminate Hreq.
+    + (* a leading IPad: its value XNone is not the tag 0, and the encoder used the same tag *)
+      cbn [dec_items].
+      rewrite (dec_enc_item_pad (is_tag0 (v :: vs)) false it s v vs a b Hpad Ha Hb).
+      rewrite (is_tag0_head v vs).
+      rewrite (dec_enc_items (is_tag0 (v :: vs)) s vs b Hs Hb). reflexivity.
+Qed.
+
+(* non-vacuity of the IPad case: the generated EmberKeyStruct response schema is well formed, it is in
+   the generated table, and the quirk does fire on a 24-byte remainder (the short form sent by old
+   NCPs, which the encoder never produces): 12 zero bytes are spliced in at offset 7 *)
+Definition key_struct_schema : schema :=
+  [IP (PU 1); IPad 24 7 12; IP (PU 2); IP (PU 1); IFixed 16 [PU 1]; IP (PU 4); IP (PU 4); IP (PU 1);
+   IFixed 8 [PU 1]].
+
+Lemma key_struct_schema_wf : wf_schema key_struct_schema = true /\ In key_struct_schema SCHEMAS.
+Proof. split; [vm_compute; reflexivity|]. vm_compute. tauto. Qed.
+
+Lemma key_struct_quirk_fires :
+  dec_item false (IPad 24 7 12) (repeat 1 24) = Some (XNone, repeat 1 7 ++ repeat 0 12 ++ repeat 1 17)
+  /\ (exists vs, decode_schema key_struct_schema (0 :: repeat 1 24) = Some (vs, []))
+  /\ decode_schema key_struct_schema (0 :: repeat 1 23) = None.
+Proof.
+  split; [vm_compute; reflexivity|]. split; [|vm_compute; reflexivity].
+  eexists. vm_compute. reflexivity.
 Qed.
 
 (* ================================================================================================ *)
